@@ -140,6 +140,12 @@ class ExpandedTraceback:
         located_frame = (student_frames or frames)[-1]
         # Inside a section, report the line of the original file
         self.line_number = located_frame[1] + line_offsets.get(located_frame[0], 0)
+        if (not student_frames and isinstance(exception, SyntaxError)
+                and exception.lineno is not None and exception.filename in show_filenames):
+            # The student's file did not compile, so none of the frames is theirs
+            # (the innermost one is pedal's own call to compile); the error itself
+            # names the line.
+            self.line_number = exception.lineno + line_offsets.get(exception.filename, 0)
         self.original_code_lines = original_code_lines
         self.student_files = student_files
 
